@@ -327,6 +327,28 @@ def canonical_client(plain, cleanup: bool, extra_used=()):
             "methods": [norm_method(m) for m in methods]}
 
 
+def rename_param_in_method(m, old, new):
+    """plain method with parameter `old` renamed to `new` (the process_name hook of ExtractOperations); names inside
+    string literals are left alone"""
+    def sub(text):
+        parts, pos = [], 0
+        for mt in IDENT._str.finditer(text):
+            parts.append(re.sub(rf"\b{re.escape(old)}\b", new, text[pos:mt.start()]))
+            parts.append(mt.group(0))
+            pos = mt.end()
+        parts.append(re.sub(rf"\b{re.escape(old)}\b", new, text[pos:]))
+        return "".join(parts)
+
+    params = [[new if p[0] == old else p[0]] + p[1:] for p in m[2]]
+    body = []
+    for st in m[5]:
+        if st[0] in ("vars", "data", "other"):
+            body.append([st[0], sub(st[1])] + st[2:])
+        else:
+            body.append(st)
+    return m[:2] + [params, m[3], m[4], body]
+
+
 def canonical_init(imports, all_):
     return {"imports": sorted({("." * int(lv) + mod, n) for lv, mod, names in imports for n in names}),
             "all": list(all_ or [])}
